@@ -39,6 +39,15 @@ func accessesIn(fn *ssa.Function) []fieldAccess {
 		case *ssa.Store:
 			if f, b := fieldOfAddr(x.Addr); f != nil {
 				out = append(out, fieldAccess{fn, in, f, b, true, "store"})
+				// a store into a sub-field of a struct-valued field also changes the enclosing field(s)
+				for outer := b; ; {
+					of, ob := fieldOfAddr(outer)
+					if of == nil {
+						break
+					}
+					out = append(out, fieldAccess{fn, in, of, ob, true, "store"})
+					outer = ob
+				}
 			}
 			if ia, ok := x.Addr.(*ssa.IndexAddr); ok {
 				if f, b := loadedField(ia.X); f != nil {
@@ -53,6 +62,14 @@ func accessesIn(fn *ssa.Function) []fieldAccess {
 			if x.Op == token.MUL {
 				if f, b := fieldOfAddr(x.X); f != nil {
 					out = append(out, fieldAccess{fn, in, f, b, false, "load"})
+					for outer := b; ; {
+						of, ob := fieldOfAddr(outer)
+						if of == nil {
+							break
+						}
+						out = append(out, fieldAccess{fn, in, of, ob, false, "load"})
+						outer = ob
+					}
 				}
 			}
 		case *ssa.Field:
@@ -62,15 +79,8 @@ func accessesIn(fn *ssa.Function) []fieldAccess {
 		case *ssa.FieldAddr:
 			// address taken and passed on (e.g. &p.buffer handed to a callee, &seg.startNTP stored):
 			// counted as a read of the field when the address escapes into a call or a store
-			for _, ref := range *x.Referrers() {
-				switch r := ref.(type) {
-				case *ssa.Call:
-					if classifySync(&r.Call) == opNone {
-						out = append(out, fieldAccess{fn, ref, derefStruct(x.X.Type()).Field(x.Field), x.X, false, "addr"})
-					}
-				case *ssa.MakeInterface:
-					out = append(out, fieldAccess{fn, ref, derefStruct(x.X.Type()).Field(x.Field), x.X, false, "addr"})
-				}
+			for _, ref := range addrEscapes(x, 0) {
+				out = append(out, fieldAccess{fn, ref, derefStruct(x.X.Type()).Field(x.Field), x.X, false, "addr"})
 			}
 		}
 		if ci, ok := in.(ssa.CallInstruction); ok {
@@ -367,10 +377,11 @@ func (c *Ctx) publicationSites(v ssa.Value) []ssa.Instruction {
 
 // unpubAt decides whether the object v points to is unpublished when `at` executes.
 type unpubCtx struct {
-	c     *Ctx
-	la    *lockAnalysis // writer-side lock analysis
-	cls   *lockClass
-	stack map[string]bool
+	c        *Ctx
+	la       *lockAnalysis // writer-side lock analysis
+	cls      *lockClass
+	stack    map[string]bool
+	allSites bool // judge parameters at every writer call site, not only at those made without the lock
 }
 
 func (u *unpubCtx) unpubAt(v ssa.Value, at ssa.Instruction, depth int) (bool, string) {
@@ -509,7 +520,7 @@ func (u *unpubCtx) unpubAt(v ssa.Value, at ssa.Instruction, depth int) (bool, st
 					unlocked = true
 				}
 			}
-			if !unlocked {
+			if !unlocked && !u.allSites {
 				continue
 			}
 			n++
@@ -531,7 +542,10 @@ func (u *unpubCtx) unpubAt(v ssa.Value, at ssa.Instruction, depth int) (bool, st
 				return false, "argument at " + c.Pos(e.Site.Pos()) + " (" + FuncName(e.Caller.Func) + "): " + why
 			}
 		}
-		return true, fmt.Sprintf("parameter unpublished at all %d unlocked call sites", n)
+		if n == 0 && u.allSites {
+			return false, "parameter of a function the writer never calls"
+		}
+		return true, fmt.Sprintf("parameter unpublished at all %d relevant call sites", n)
 	case *ssa.FreeVar:
 		return false, "captured variable of a closure (published with the closure)"
 	}
@@ -681,8 +695,9 @@ func ruleL4(c *Ctx) *RuleResult {
 				key := fmt.Sprintf("%s|W %s %s#%d", fname, s.a.kind, FuncName(s.a.fn), cnt[FuncName(s.a.fn)])
 				what := "writer changes " + fname + " only under " + cls.Name + " or on an object that is not yet published"
 				if s.must.hasW(cls) {
-					// locked in every context
-					if up, _ := uc.unpubAt(s.a.base, s.a.instr, 0); !up {
+					// locked in every context: does the store rely on the lock, i.e. can the object already be published?
+					ucAll := &unpubCtx{c: c, la: laW, cls: cls, stack: map[string]bool{}, allSites: true}
+					if up, _ := ucAll.unpubAt(s.a.base, s.a.instr, 0); !up {
 						reliesOnLock = true
 					}
 					v.oks = append(v.oks, Obl{Key: key, Pos: c.Pos(posOf(s.a.instr)), Func: FuncName(s.a.fn), What: what, OK: true, Why: "holds " + cls.Name + " in every calling context"})
@@ -1180,4 +1195,26 @@ func ruleL8(c *Ctx) *RuleResult {
 		}
 	}
 	return r
+}
+
+// addrEscapes: instructions through which the address of a field (or of a sub-field of it) is handed to a callee or
+// converted to an interface — the callee reads (at least) the field.
+func addrEscapes(x *ssa.FieldAddr, depth int) []ssa.Instruction {
+	var out []ssa.Instruction
+	if depth > 4 || x.Referrers() == nil {
+		return out
+	}
+	for _, ref := range *x.Referrers() {
+		switch r := ref.(type) {
+		case *ssa.Call:
+			if classifySync(&r.Call) == opNone {
+				out = append(out, ref)
+			}
+		case *ssa.MakeInterface:
+			out = append(out, ref)
+		case *ssa.FieldAddr:
+			out = append(out, addrEscapes(r, depth+1)...)
+		}
+	}
+	return out
 }
